@@ -43,6 +43,11 @@ theorem isPrefixB_iff (p s : Bytes) : isPrefixB p s = true ↔ ∃ t, s = p ++ t
       · rintro ⟨rfl, t, rfl⟩; exact ⟨t, rfl, rfl⟩
       · rintro ⟨t, rfl, rfl⟩; exact ⟨rfl, t, rfl⟩
 
+def isAsciiAlpha (c : UInt8) : Bool := (0x41 ≤ c && c ≤ 0x5A) || (0x61 ≤ c && c ≤ 0x7A)
+def isAsciiDigit (c : UInt8) : Bool := 0x30 ≤ c && c ≤ 0x39
+def isAsciiAlnum (c : UInt8) : Bool := isAsciiAlpha c || isAsciiDigit c
+def toLowerAscii (c : UInt8) : UInt8 := if 0x41 ≤ c && c ≤ 0x5A then c + 0x20 else c
+
 /-- ASCII upper-case hexadecimal digit for a nibble. -/
 def hexDigit (n : UInt8) : UInt8 := if n < 10 then 0x30 + n else 0x37 + n
 
@@ -53,19 +58,46 @@ def hexVal? (c : UInt8) : Option UInt8 :=
   else if 0x61 ≤ c && c ≤ 0x66 then some (c - 0x57)
   else none
 
-def isAsciiAlpha (c : UInt8) : Bool := (0x41 ≤ c && c ≤ 0x5A) || (0x61 ≤ c && c ≤ 0x7A)
-def isAsciiDigit (c : UInt8) : Bool := 0x30 ≤ c && c ≤ 0x39
-def isAsciiAlnum (c : UInt8) : Bool := isAsciiAlpha c || isAsciiDigit c
-def toLowerAscii (c : UInt8) : UInt8 := if 0x41 ≤ c && c ≤ 0x5A then c + 0x20 else c
-
 /-- comrak's `ctype::isspace` (src/ctype.rs, class 1): tab, LF, CR, space - no VT, no FF. -/
 def isSpace (c : UInt8) : Bool := c == 0x09 || c == 0x0A || c == 0x0D || c == 0x20
 
 /-- White space of the HTML tokenizer (what ends a tag name for a browser): tab, LF, FF, CR, space. -/
 def htmlSpace (c : UInt8) : Bool := c == 0x09 || c == 0x0A || c == 0x0C || c == 0x0D || c == 0x20
 
+/-- Decimal digits, most significant first (`fuel` bounds the number of digits). -/
+def ofNatDecAux : Nat → Nat → Bytes → Bytes
+  | 0, _, acc => acc
+  | fuel + 1, n, acc =>
+    let d : UInt8 := UInt8.ofNat (48 + n % 10)
+    if n < 10 then d :: acc else ofNatDecAux fuel (n / 10) (d :: acc)
+
 /-- Decimal spelling of a natural number (as `write!("{}")` does). -/
-def ofNatDec (n : Nat) : Bytes := (toString n).toUTF8.toList
+def ofNatDec (n : Nat) : Bytes := ofNatDecAux (n + 1) n []
+
+theorem ofNatDecAux_digits (fuel n : Nat) (acc : Bytes) (h : ∀ c ∈ acc, isAsciiDigit c = true) :
+    ∀ c ∈ ofNatDecAux fuel n acc, isAsciiDigit c = true := by
+  induction fuel generalizing n acc with
+  | zero => simpa [ofNatDecAux] using h
+  | succ k ih =>
+    have hd : isAsciiDigit (UInt8.ofNat (48 + n % 10)) = true := by
+      have : n % 10 < 10 := Nat.mod_lt _ (by omega)
+      have h2 : ∀ m : Fin 10, isAsciiDigit (UInt8.ofNat (48 + m.val)) = true := by decide
+      exact h2 ⟨n % 10, this⟩
+    simp only [ofNatDecAux]
+    split
+    · intro c hc
+      rcases List.mem_cons.mp hc with rfl | hc
+      · exact hd
+      · exact h c hc
+    · apply ih
+      intro c hc
+      rcases List.mem_cons.mp hc with rfl | hc
+      · exact hd
+      · exact h c hc
+
+/-- Every byte of a decimal spelling is an ASCII digit. -/
+theorem ofNatDec_digits (n : Nat) : ∀ c ∈ ofNatDec n, isAsciiDigit c = true :=
+  ofNatDecAux_digits _ _ _ (by simp)
 
 /-- Hex wire encoding used by the line protocol. -/
 def toHex (bs : Bytes) : String :=
